@@ -145,6 +145,13 @@ pub fn gen_cfg(prop: &str, rng: &mut Rng) -> GenCfg {
 }
 
 pub fn gen_for(prop: &str, seed: u64) -> Scenario {
+    let mut sc = gen_for_raw(prop, seed);
+    // whatever was added or stripped above: what only non-creating systems declare must exist
+    fix_expect(&sc.regs, &mut sc.present);
+    sc
+}
+
+fn gen_for_raw(prop: &str, seed: u64) -> Scenario {
     let mut rng = Rng::sub(seed, 9);
     let cfg = gen_cfg(prop, &mut rng);
     let mut sc = gen_scenario(seed, &cfg);
@@ -234,6 +241,7 @@ fn has_dep(r: &[Reg]) -> bool {
     r.iter().any(|x| match x {
         Reg::Sys { deps, .. } => !deps.is_empty(),
         Reg::Batch { deps, inner, .. } => !deps.is_empty() || has_dep(inner),
+        Reg::TlDisp { inner } => has_dep(inner),
         _ => false,
     })
 }
@@ -249,7 +257,7 @@ fn has_batch(r: &[Reg]) -> bool {
 }
 fn has_tl(r: &[Reg]) -> bool {
     r.iter().any(|x| match x {
-        Reg::Tl { .. } => true,
+        Reg::Tl { .. } | Reg::TlDisp { .. } => true,
         Reg::Batch { inner, .. } => has_tl(inner),
         _ => false,
     })
@@ -525,7 +533,7 @@ pub fn eval_static(b: &Built) -> Vec<Violation> {
     for i in infos.iter() {
         let n = b.ctx.states[i.sid].setup.load(Ordering::SeqCst);
         // a batch's own counter is not incremented by anything (its controller has no setup hook)
-        if i.kind != Kind::Batch && n != b.expected_setups {
+        if i.kind != Kind::Batch && !i.container && n != b.expected_setups {
             out.push(Violation {
                 prop: "C13".into(),
                 class: if n < b.expected_setups { "setup-missed".into() } else { "setup-twice".into() },
@@ -600,7 +608,7 @@ pub fn eval_dispose(mut b: Built) -> Vec<Violation> {
     if let Some(d) = b.disp.take() {
         d.dispose(&mut b.world);
     }
-    for i in b.ctx.infos.iter().filter(|i| i.kind != Kind::Batch) {
+    for i in b.ctx.infos.iter().filter(|i| i.kind != Kind::Batch && !i.container) {
         let n = b.ctx.states[i.sid].dispose.load(Ordering::SeqCst);
         if n != 1 {
             let class = match (i.depth >= 1, n == 0) {
